@@ -1794,7 +1794,7 @@ func (c *RemoteClient) handleRequestResponse(ctx context.Context, message *Messa
 	case *Header:
 		blockHash := *msg.Header.BlockHash()
 		for i, request := range c.requests {
-			if request.typ == MessageTypeGetHeaders && request.hash.Equal(&blockHash) {
+			if request.typ == MessageTypeGetHeader && request.hash.Equal(&blockHash) {
 				request.response <- message
 				c.requests = append(c.requests[:i], c.requests[i+1:]...)
 				return nil
